@@ -347,10 +347,16 @@ def smt_layer(rep, tier):
     # --- restricted strings: the constructor accepts exactly L(_regex under .match)
     extra = T.restricted_string_type("VfThreeDigits", r"^[0-9]{3}$")
     extra2 = T.restricted_string_type("VfPrefix", r"ab+")
+    # the API also takes compiled patterns: their flags are part of the pattern
+    T.restricted_string_type("VfDotAll", re.compile(r"^a.c$", re.DOTALL))
+    T.restricted_string_type("VfIgnoreCase", re.compile(r"^ab?c$", re.IGNORECASE))
+    T.restricted_string_type("VfAscii", re.compile(r"^\d+$", re.ASCII))
     n_words = 25 if tier == "quick" else 120
-    for name in ("Email", "NotEmptyStr", "VfThreeDigits", "VfPrefix"):
+    for name in ("Email", "NotEmptyStr", "VfThreeDigits", "VfPrefix", "VfDotAll", "VfIgnoreCase", "VfAscii"):
         cls = getattr(T, name)
-        lang = rx.lang(cls._regex, "match")
+        # the language is taken from the pattern the type was *created with* where the harness created it (flags included)
+        created_with = {"VfDotAll": re.compile(r"^a.c$", re.DOTALL), "VfIgnoreCase": re.compile(r"^ab?c$", re.IGNORECASE), "VfAscii": re.compile(r"^\d+$", re.ASCII)}
+        lang = rx.lang(created_with.get(name, cls._regex), "match")
         for member in (True, False):
             words = rx.members(lang, n_words, maxlen=10, neg=not member)
             if not member:
